@@ -63,6 +63,40 @@ def gen_c14(tier, rng):
         for k2, q in enumerate(srcs):
             ops += [q.line("t"), "pk eq t a", "pk assign t a", "pk show t", "pk eq t a", "pk eq a t"]
         cases.append(Case("c14r", ops, True, ("reflexive+assign",)))
+    # equality agrees with field-by-field comparison: packets that differ from a base packet in EXACTLY ONE field (each header
+    # field, the payload type, one payload byte, the payload length)
+    base = dict(ty=0x0101, data=bytes(range(1, 21)), ver=2, dev=0x1234, stream=0x56, seq=0x789A, ts=0x0102030405060708, ifid=0x0B0C0D0E, vend=0x0F10,
+                flags=0x33, seg=4)
+    variants = [dict(base)]
+    for k, v in (("ver", 3), ("dev", 0x1235), ("stream", 0x57), ("seq", 0x789B), ("ts", 0x0102030405060709), ("ifid", 0x0B0C0D0F), ("vend", 0x0F11),
+                 ("flags", 0x32), ("seg", 8), ("ty", 0x0102), ("data", bytes(range(1, 20)) + b"\xff"), ("data", bytes(range(1, 20)))):
+        d = dict(base)
+        d[k] = v
+        variants.append(d)
+    ops = []
+    for i, d in enumerate(variants):
+        ops.append(Pkt(d["ty"], d["data"], ver=d["ver"], dev=d["dev"], stream=d["stream"], seq=d["seq"], ts=d["ts"], ifid=d["ifid"], vend=d["vend"],
+                       flags=d["flags"], seg=d["seg"]).line("v%d" % i))
+    for i in range(len(variants)):
+        for j in range(len(variants)):
+            ops.append("pk eq v%d v%d" % (i, j))
+    cases.append(Case("c14f", ops, True, ("one-field-differs",), meta={"fieldwise": len(variants)}))
+    # TECMP payload objects: copy / assignment / equality (incl. x == x and empty payloads)
+    for _ in range(20 if tier == "quick" else 200):
+        ops = []
+        pls = [(0x0302, proto.rand_bytes(rng, rng.choice([0, 1, 5, 13]))), (0x0302, b""), (0x0304, b""), (0x0100, proto.rand_bytes(rng, 36)), (0xFFFF, b"\x01\x02")]
+        for i, (ty, d) in enumerate(pls):
+            ops.append("tpl new t%d %04x %s" % (i, ty, proto.hexs(d)))
+        n = len(pls)
+        for _j in range(6):
+            o = rng.choice(["copy", "assign"])
+            a, b = rng.randrange(n), rng.randrange(n)
+            ops.append("tpl %s %s t%d" % (o, ("u%d" % a) if o == "copy" else ("t%d" % a), b))
+            if o == "copy":
+                ops += ["tpl show u%d" % a, "tpl eq u%d t%d" % (a, b), "tpl eq t%d u%d" % (b, a)]
+            for i in range(n):
+                ops += ["tpl show t%d" % i, "tpl eq t%d t%d" % (i, i), "tpl eq t%d t%d" % (i, (i + 1) % n)]
+        cases.append(Case("c14t", ops, True, ("tecmp-payloads",)))
     # aliasing: a copy shares no state with its original (mutate every field of the copy, replace its payload, destroy it)
     for _ in range(60 if tier == "quick" else 600):
         p = proto.rand_packet(rng)
@@ -122,6 +156,13 @@ def pred_c14(case, impl, model, ctx):
                 return False
             if w[2] == w[3] and not e:
                 return False
+    # field-by-field: in the one-field-differs case v_i == v_j exactly when i == j
+    if case.meta.get("fieldwise"):
+        for o, l in zip(case.ops, impl):
+            w = o.split(" ")
+            if w[0] == "pk" and w[1] == "eq":
+                if (l[3] == "1") != (w[2] == w[3]):
+                    return False
     # symmetric: collect eq results per (a, b) in the same block (between mutating operations)
     block = {}
     for o, l in zip(case.ops, impl):
@@ -234,6 +275,7 @@ def gen_c16(tier, rng):
                 ops.append("st s clear")
             if n % 5 == 4:
                 ops.append("st s dump")
+                ops.append("st s dumpmut")
                 ops += ["st s idx %d" % x for x in devs + [65535, 0, 9]]
         ops.append("st s dump")
         cases.append(Case("c16r", ops, True, ("random200",), meta={"noshrink": False}))
